@@ -125,7 +125,37 @@ fn frame_cases(ctx: &mut Ctx, bytes: &[u8], desc: &str) -> bool {
     true
 }
 
+/// water-only tiles: many layer shapes (bitmap only, vertex data only, both, neither; entries with attributes only) so that the
+/// layout model sees every region combination
+fn water_sweep(ctx: &mut Ctx) {
+    let n = if ctx.thorough { 400 } else { 40 };
+    for j in 0..n {
+        let mut rng = ctx.rng.clone();
+        let mut w = water(&mut rng);
+        // reshape some entries
+        for e in w.entries.iter_mut() {
+            if e.instances.is_empty() { if rng.chance(1, 60) { e.attributes = Some(Mh2oAttributes { fishable: rng.next(), deep: rng.next() }); } continue; }
+            match rng.below(5) { 0 => { for (k, b) in e.exists_bitmaps.iter_mut().enumerate() { let cells = e.instances.get(k).map(|i| i.width as u32 * i.height as u32).unwrap_or(1); *b = Some((if cells >= 63 { rng.next() } else { rng.below(1u64 << cells) }) | 1); } for v in e.vertex_data.iter_mut() { *v = None; } }   // bitmap only (flat, masked water)
+                1 => { for b in e.exists_bitmaps.iter_mut() { *b = None; } }
+                2 => { e.attributes = Some(Mh2oAttributes { fishable: rng.next(), deep: rng.next() }); }
+                _ => {} }
+        }
+        ctx.rng = rng;
+        let ver = [AdtVersion::WotLK, AdtVersion::Cataclysm, AdtVersion::MoP][j % 3];
+        let built = match AdtBuilder::new().with_version(ver).add_texture("t.blp").add_water_data(w).build() { Ok(b) => b, Err(_) => { ctx.out.stat("c14.water_sweep.rejected"); continue; } };
+        let Ok(bytes) = built.to_bytes() else { ctx.out.oracle(false, "serialise-fails", "water-only tile"); continue; };
+        water_cases(ctx, &bytes, built.water_data());
+        // and what the parser reads back is what was handed in
+        match parse_root(&bytes) { Ok(r) => { let (g, wn) = (water_canon(&r.water_data), water_canon(&built.water_data().cloned()));
+                if g != wn && std::env::var("WVH_DEBUG").is_ok() { let (ga, wa): (Vec<&str>, Vec<&str>) = (g.split(';').collect(), wn.split(';').collect()); for k in 0..ga.len().max(wa.len()) { if ga.get(k) != wa.get(k) { eprintln!("DIFF entry\n got  {}\n want {}", ga.get(k).map(|s| &s[..s.len().min(700)]).unwrap_or("-"), wa.get(k).map(|s| &s[..s.len().min(700)]).unwrap_or("-")); break; } } }
+                ctx.out.oracle(g == wn, "parsed-content-differs-from-built", &format!("water :: water-only {ver:?} tile {j}")) },
+            Err(e) => ctx.out.oracle(false, "own-output-does-not-parse", &format!("{e} :: water-only tile")) }
+        ctx.out.stat("c14.water_sweep");
+    }
+}
+
 pub fn run(ctx: &mut Ctx) {
+    water_sweep(ctx);
     let n = if ctx.thorough { 240 } else { 48 };
     for k in 0..n {
         let ver = VERSIONS[(k % 6) as usize];
@@ -196,6 +226,7 @@ pub fn run(ctx: &mut Ctx) {
         let want = of_built(&built);
         let bytes = match built.to_bytes() { Ok(x) => x, Err(e) => { ctx.out.oracle(false, "serialise-fails", &format!("{e} :: {desc}")); continue; } };
         if !frame_cases(ctx, &bytes, &desc) { continue; }
+        water_cases(ctx, &bytes, built.water_data());
         let root = match parse_root(&bytes) { Ok(r) => r, Err(e) => { ctx.out.oracle(false, "own-output-does-not-parse", &format!("{e} :: {desc}")); continue; } };
         let mut bad = false;
         // the version label is inferred from which chunks are present; it is not content (a MoP tile without MoP-only chunks
@@ -226,4 +257,27 @@ pub fn run(ctx: &mut Ctx) {
         }
         if !bad { ctx.out.oracle(true, "", ""); ctx.out.nontrivial(desc.as_bytes()); }
     }
+}
+
+/// Model.C14Water: the offsets recorded in the water chunk of a written file (header table and instance records, read straight
+/// from the bytes) against the layout the model computes from what was handed to the builder
+fn water_cases(ctx: &mut Ctx, bytes: &[u8], w: Option<&Mh2oChunk>) {
+    let Some(w) = w else { return };
+    let mut p = 0usize; let mut pl: Option<&[u8]> = None;
+    while p + 8 <= bytes.len() { let sz = u32::from_le_bytes([bytes[p + 4], bytes[p + 5], bytes[p + 6], bytes[p + 7]]) as usize; if p + 8 + sz > bytes.len() { break; }
+        if &bytes[p..p + 4] == b"O2HM" { pl = Some(&bytes[p + 8..p + 8 + sz]); break; } p += 8 + sz; }
+    let Some(pl) = pl else { ctx.out.oracle(false, "water-chunk-missing", "water handed to the builder, no MH2O chunk in the file"); return };
+    let spec: Vec<String> = w.entries.iter().map(|e| format!("{}:{}", e.attributes.is_some() as u8,
+        (0..e.instances.len()).map(|i| format!("{}.{}", e.exists_bitmaps.get(i).map(|b| b.is_some()).unwrap_or(false) as u8,
+            e.vertex_data.get(i).and_then(|v| v.as_ref()).map(|v| v.byte_size().to_string()).unwrap_or("-".into()))).collect::<Vec<_>>().join(","))).collect();
+    let rd = |o: usize| -> u32 { if o + 4 <= pl.len() { u32::from_le_bytes([pl[o], pl[o + 1], pl[o + 2], pl[o + 3]]) } else { 0xDEAD_BEEF } };
+    let mut outs = vec![];
+    for i in 0..256usize {
+        let (inst, count, attr) = (rd(i * 12), rd(i * 12 + 4), rd(i * 12 + 8));
+        if count == 0 && attr == 0 && inst == 0 { continue; }
+        let offs: Vec<String> = (0..count as usize).map(|k| { let b = inst as usize + 24 * k; format!("{}.{}", rd(b + 16), rd(b + 20)) }).collect();
+        outs.push(format!("{i}={inst},{count},{attr}[{}]", offs.join(",")));
+    }
+    ctx.out.case(&format!("c14water {}", spec.join(";")), &format!("{} total={}", if outs.is_empty() { "-".to_string() } else { outs.join(" ") }, pl.len()));
+    ctx.out.stat("c14.water_layout");
 }
